@@ -183,6 +183,17 @@ class Datapath:
             # compiler's own SOFTMAX lowering leaves the zero point of the int8 input on its 32-bit intermediates and reads
             # them back with zero point 0; with a table the zero point positions the 8-bit index)
             y = y + k.ofm.zp
+        if k.act in (3, 4):
+            # hardware TANH / SIGMOID of a 16-bit result: the scaled value counts steps of 1 / 0x3000, the result is Q0.15; the
+            # activation range registers then clamp the result.  The unit's internal precision is not documented: this is the
+            # exact function rounded once, and whatever is computed through it is compared with a tolerance (never bit-exactly)
+            if k.ofm.bits != 16:
+                raise NotModelled("hardware tanh/sigmoid activation with a non 16-bit OFM")
+            self.inexact = True
+            xr = np.asarray(y, np.float64) / float(0x3000)
+            f = np.tanh(xr) if k.act == 3 else 1.0 / (1.0 + np.exp(-xr))
+            y = np.clip(np.floor(f * 32768.0 + 0.5), -32768, 32767).astype(np.int64)
+            return np.clip(y, k.act_min, k.act_max)
         if k.ofm.bits <= 16 or k.uses_lut:
             y = np.clip(y, k.act_min, k.act_max)  # (the 16-bit activation range registers do not apply to a plain 32-bit OFM)
         if k.uses_lut:
@@ -215,8 +226,6 @@ class Datapath:
             if k.ofm.signed:
                 v = np.where(v >= 128, v - 256, v)
             y = v
-        elif k.act in (3, 4):
-            raise NotModelled("hardware tanh/sigmoid activation")
         lo, hi = (-(1 << (k.ofm.bits - 1)), (1 << (k.ofm.bits - 1)) - 1) if k.ofm.signed else (0, (1 << k.ofm.bits) - 1)
         return np.clip(y, lo, hi)
 
@@ -294,6 +303,8 @@ class Datapath:
             # 32-bit product / selection written as 16 bit (MEAN), 16-bit operand selected into 32 bit (LEAKY_RELU with negative alpha)
             mixed = ((k.ifm.bits, k.ofm.bits) in ((32, 16), (16, 32)) and k.sub in ("MUL", "MIN", "MAX")
                      and (k.ifm2 is None or (k.bcast & 0x80) or k.ifm2.bits == k.ifm.bits))
+            # 16-bit product written as 8 bit (hidden state of the LSTM lowering)
+            mixed = mixed or ((k.ifm.bits, k.ofm.bits) == (16, 8) and k.sub == "MUL" and k.ifm2 is not None and not (k.bcast & 0x80) and k.ifm2.bits == 16)
             if not (same16 or mixed):
                 raise NotModelled("16-bit elementwise " + str(k.sub))
         if wide and k.sub not in ("ADD", "SUB", "MUL", "MIN", "MAX", "SHR", "SHL", "CLZ"):
